@@ -32,6 +32,26 @@
 (* same way; an AWK `function` of the same name as an entry (shadow) takes *)
 (* precedence for calls of that name and must not change which Go function *)
 (* the calls of the OTHER names reach (DispatchAgrees).                    *)
+(*                                                                         *)
+(* Shapes: besides the fixed menu InvalidShapes, a signature of shape      *)
+(* "gen" is built from parts -- parameters over ParamKinds (the documented *)
+(* Kinds and BadKinds: struct, map, chan, complex, func, []int, []string,  *)
+(* pointer, interface, array), variadic or not, 0..3 results, first result *)
+(* over ParamKinds, second result over SecondKinds (the interface type     *)
+(* error itself; concrete types that merely IMPLEMENT error: a named int,  *)
+(* a pointer type, a struct; int; string).  GenValid is the documented     *)
+(* rule: every parameter (the element of a variadic tail) of a documented  *)
+(* kind; no result, one result of a documented kind, or two results        *)
+(* (documented kind, error).  "error" is the type `error`: a concrete type *)
+(* with an Error method is a function of another shape.                    *)
+(*                                                                         *)
+(* Extreme results: result mode "ext" returns, for the result kind rk, the *)
+(* value named xv \in ExtOf(rk) (minimum, maximum, -1, 2^63, 2^63-1,       *)
+(* 2^53+1, +-MaxFloat, +-smallest denormal; int and uint are 64 bits       *)
+(* wide).  "Returns the converted result" means the AWK number IS that     *)
+(* value: ExtNum gives its sign, its exact decimal digits (digit-sequence  *)
+(* arithmetic below: TLC has 32-bit integers), whether a float64 holds it  *)
+(* exactly, and its decimal exponent.                                      *)
 (***************************************************************************)
 EXTENDS Integers, Sequences, FiniteSets, TLC
 
@@ -149,6 +169,59 @@ RetConst(k) ==
     [] k \in FloatKinds -> [k |-> "f", h |-> 5]
     [] k \in StrKinds -> [k |-> "s", s |-> "ret"]
 
+\* ---- extreme results ----
+\* digit sequences (most significant first) for the values TLC's 32-bit integers cannot hold
+RECURSIVE DMulAdd(_, _, _)          \* d * c + carry
+DMulAdd(d, c, carry) ==
+  IF d = <<>> THEN (IF carry = 0 THEN <<>> ELSE DMulAdd(<<>>, c, carry \div 10) \o <<carry % 10>>)
+  ELSE LET v == d[Len(d)] * c + carry
+       IN DMulAdd(SubSeq(d, 1, Len(d) - 1), c, v \div 10) \o <<v % 10>>
+RECURSIVE DMulPow2(_, _)            \* d * 2^n   (by factors of 2^16 while possible: digit * 65536 + carry fits easily)
+DMulPow2(d, n) == IF n = 0 THEN d ELSE IF n >= 16 THEN DMulPow2(DMulAdd(d, 65536, 0), n - 16) ELSE DMulPow2(DMulAdd(d, 2, 0), n - 1)
+DPow2(n) == DMulPow2(<<1>>, n)
+DIncr(d) == DMulAdd(d, 1, 1)
+RECURSIVE DDecr(_)                  \* d - 1 for d >= 1 (a leading zero may remain only for d = 1: <<0>>)
+DDecr(d) == IF d[Len(d)] > 0 THEN [d EXCEPT ![Len(d)] = @ - 1]
+            ELSE DDecr(SubSeq(d, 1, Len(d) - 1)) \o <<9>>
+RECURSIVE DText(_)
+DText(d) == IF d = <<>> THEN "" ELSE ToString(d[1]) \o DText(Tail(d))
+
+Bits(k) == CASE k \in {"int8", "uint8"} -> 8 [] k \in {"int16", "uint16"} -> 16 [] k \in {"int32", "uint32"} -> 32
+             [] k \in {"int", "int64", "uint", "uint64"} -> 64          \* 64-bit platforms
+\* the extreme values of a result kind
+ExtOf(k) ==
+  CASE k \in Signed     -> {"min", "max", "minus1"} \cup (IF Bits(k) = 64 THEN {"p53p1", "negp53p1"} ELSE {})
+    [] k \in Unsigned   -> {"max"} \cup (IF Bits(k) = 64 THEN {"p63", "p63m1", "p63p1", "p53p1"} ELSE {})
+    [] k \in FloatKinds -> {"fmax", "negfmax", "fden", "negfden"}
+    [] OTHER -> {}
+\* an integer needs at most 53 significant bits to be a float64; 2^n - 1 has n of them, 2^n one, 2^n + 1 has n + 1
+\* [neg, int (integer-valued), d (digits of the magnitude, integer-valued only), exact (a float64 holds it), e10]
+ExtVal(k, x) ==
+  LET I(neg, d, ex) == [neg |-> neg, int |-> TRUE, d |-> d, exact |-> ex, e10 |-> Len(d) - 1]
+      Small(neg, e) == [neg |-> neg, int |-> FALSE, d |-> <<>>, exact |-> TRUE, e10 |-> e]
+  IN CASE x = "min"      -> I(TRUE, DPow2(Bits(k) - 1), TRUE)
+       [] x = "max"      -> IF k \in Signed THEN I(FALSE, DDecr(DPow2(Bits(k) - 1)), Bits(k) - 1 <= 53)
+                            ELSE I(FALSE, DDecr(DPow2(Bits(k))), Bits(k) <= 53)
+       [] x = "minus1"   -> I(TRUE, <<1>>, TRUE)
+       [] x = "p53p1"    -> I(FALSE, DIncr(DPow2(53)), FALSE)
+       [] x = "negp53p1" -> I(TRUE, DIncr(DPow2(53)), FALSE)
+       [] x = "p63"      -> I(FALSE, DPow2(63), TRUE)
+       [] x = "p63m1"    -> I(FALSE, DDecr(DPow2(63)), FALSE)
+       [] x = "p63p1"    -> I(FALSE, DIncr(DPow2(63)), FALSE)
+       \* MaxFloat64 = (2^53 - 1) * 2^971, MaxFloat32 = (2^24 - 1) * 2^104; the smallest denormals 2^-1074 = 4.94..e-324
+       \* and 2^-149 = 1.40..e-45 (a float64 holds every float32 exactly)
+       [] x \in {"fmax", "negfmax"} -> I(x = "negfmax", IF k = "float64" THEN DMulPow2(DDecr(DPow2(53)), 971)
+                                                         ELSE DMulPow2(DDecr(DPow2(24)), 104), TRUE)
+       [] x \in {"fden", "negfden"} -> Small(x = "negfden", IF k = "float64" THEN 0 - 324 ELSE 0 - 45)
+\* as exported: the digits as text.  ExtTable is a constant without parameters: TLC computes it once (MaxFloat64 costs
+\* 61 long multiplications of a 300-digit sequence).
+ExtKinds == IntKinds \cup FloatKinds
+ExtTable == [k \in ExtKinds |-> [x \in ExtOf(k) |-> LET v == ExtVal(k, x)
+                                                     IN [neg |-> v.neg, int |-> v.int, digits |-> DText(v.d), exact |-> v.exact, e10 |-> v.e10]]]
+ExtNum(k, x) == ExtTable[k][x]
+MkExt(params, k, x, e) ==
+  [shape |-> "ok", name |-> "fn", params |-> params, variadic |-> FALSE, res |-> "ext", rk |-> k, err |-> e, xv |-> x]
+
 \* ---- signatures ----
 \* sig = [shape, name, params (kinds), variadic, res ("none" | "const" | "echo"), rk (result kind), err ("none" | "nil" | "err")]
 \* shape "ok": parameters and result over Kinds.  Other shapes are the invalid ones; each has one parameter
@@ -157,10 +230,35 @@ InvalidShapes == {"struct-param", "map-param", "chan-param", "complex-param", "f
                   "pointer-param", "interface-param", "three-results", "second-not-error", "struct-result",
                   "variadic-struct"}
 KeywordNames == {"print", "BEGIN", "function", "getline", "length", "in", "substr"}
-NumParams(sig) == IF sig.shape = "ok" THEN Len(sig.params)
+\* shape "gen": [shape, name, params (over ParamKinds), variadic, nres (0..3), rk (first result), r2 (second result),
+\*               res, err (as for "ok": what the synthesised function does when the signature is valid)]
+BadKinds    == {"struct", "map", "chan", "complex", "func", "intslice", "strslice", "pointer", "interface", "array"}
+ParamKinds  == Kinds \cup BadKinds
+\* second results: the type error; errno = a named int with an Error method; perr = a pointer type with an Error
+\* method; errstruct = a struct type with an Error method (all three IMPLEMENT error); int and string do not
+SecondKinds == {"error", "errno", "perr", "errstruct", "int", "string"}
+ImplementsError == {"error", "errno", "perr", "errstruct"}
+\* the documented rule (doc comment of interp.Config.Funcs)
+GenValid(sig) ==
+  /\ \A j \in 1..Len(sig.params) : sig.params[j] \in Kinds
+  /\ \/ sig.nres = 0
+     \/ sig.nres = 1 /\ sig.rk \in Kinds
+     \/ sig.nres = 2 /\ sig.rk \in Kinds /\ sig.r2 = "error"
+MkGen(params, variadic, nres, rk, r2) ==
+  [shape |-> "gen", name |-> "fn", params |-> params, variadic |-> variadic, nres |-> nres, rk |-> rk, r2 |-> r2,
+   res |-> IF nres = 0 THEN "none" ELSE "const", err |-> IF nres = 2 THEN "nil" ELSE "none"]
+NumParams(sig) == IF sig.shape \in {"ok", "gen"} THEN Len(sig.params)
                   ELSE IF sig.shape \in {"three-results", "second-not-error", "struct-result"} THEN 0 ELSE 1
-IsVariadic(sig) == IF sig.shape = "ok" THEN sig.variadic ELSE sig.shape = "variadic-struct"
-ValidSig(sig) == sig.shape = "ok" /\ sig.name \notin KeywordNames
+IsVariadic(sig) == IF sig.shape \in {"ok", "gen"} THEN sig.variadic ELSE sig.shape = "variadic-struct"
+ValidSig(sig) == sig.name \notin KeywordNames /\ (sig.shape = "ok" \/ (sig.shape = "gen" /\ GenValid(sig)))
+\* the corrected function a maintainer would put under the same name: every undocumented parameter kind replaced by
+\* string, one result of a documented kind (int if it was not) and a second result of type error
+Fixed(sig) ==
+  IF sig.shape = "gen"
+  THEN [shape |-> "ok", name |-> sig.name, params |-> [j \in 1..Len(sig.params) |-> IF sig.params[j] \in Kinds THEN sig.params[j] ELSE "string"],
+        variadic |-> sig.variadic, res |-> "const", rk |-> IF sig.nres >= 1 /\ sig.rk \in Kinds THEN sig.rk ELSE "int", err |-> "nil"]
+  ELSE [shape |-> "ok", name |-> sig.name, params |-> IF NumParams(sig) = 1 THEN <<"string">> ELSE <<>>,
+        variadic |-> IsVariadic(sig), res |-> "const", rk |-> "int", err |-> "nil"]
 
 \* kind of the parameter that receives argument number j
 ParamKind(sig, j) ==
@@ -207,6 +305,8 @@ OutcomeConv(sig, args, called, cf) ==
   ELSE IF ~called THEN [o |-> "not-called"]
   ELSE LET recv == ReceivedCf(sig, args, cf)
        IN IF sig.err = "err" THEN [o |-> "abort", recv |-> recv]
+          ELSE IF sig.res = "ext"     \* the spelling of print is not pinned down beyond 64 bits: the NUMBER is (num)
+          THEN [o |-> "ok", recv |-> recv, printed |-> Unspecified, num |-> ExtNum(sig.rk, sig.xv)]
           ELSE [o |-> "ok", recv |-> recv,
                 printed |-> CASE sig.res = "none"  -> Known(AwkPrintCf(AwkNull, cf))
                               [] sig.res = "const" -> Known(AwkPrintCf(FromGo(sig.rk, RetConst(sig.rk)), cf))
@@ -220,10 +320,24 @@ OutcomeFull(sig, args, called, shadow, cf) ==
   LET oc  == OutcomeConv(sig, args, called, cf)
       ran == Append(RanBefore(shadow), Dispatch(FALSE, shadow, sig.name))
   IN CASE oc.o = "abort" -> [o |-> "abort", recv |-> oc.recv, ran |-> ran, dlines |-> OtherLines(shadow)]
-       [] oc.o = "ok"    -> [o |-> "ok", recv |-> oc.recv, ran |-> ran, dlines |-> OtherLines(shadow), printed |-> oc.printed]
+       [] oc.o = "ok"    -> IF "num" \in DOMAIN oc
+                            THEN [o |-> "ok", recv |-> oc.recv, ran |-> ran, dlines |-> OtherLines(shadow), printed |-> oc.printed, num |-> oc.num]
+                            ELSE [o |-> "ok", recv |-> oc.recv, ran |-> ran, dlines |-> OtherLines(shadow), printed |-> oc.printed]
        [] OTHER          -> oc
 \* a table with only the called function matters to the conversion tables: no shadow, default CONVFMT
 Outcome(sig, args, called) == OutcomeConv(sig, args, called, DefaultCf)
+
+\* ---- sessions: several Execute calls on ONE interpreter ----
+\* A run is "bad" (Funcs holds the function of the invalid signature sig) or "fixed" (the same table with the
+\* corrected function Fixed(sig) under the same name).  The set-up verdict of an Execute is a function of the Funcs
+\* it is given: every "bad" run is rejected at set-up, whatever happened before.  A "fixed" run after a rejected one:
+\* nothing was set up by the rejected calls, so it behaves like the first Execute of a fresh interpreter; because the
+\* documentation also says that Funcs must not change between calls, an implementation that keeps rejecting is not
+\* judged wrong (orsetup = TRUE: "this outcome, or a set-up error").
+SessionOutcomes(sig, args, called, runs) ==
+  [j \in 1..Len(runs) |->
+     IF runs[j] = "bad" THEN [orsetup |-> FALSE, outcome |-> OutcomeFull(sig, args, called, "none", DefaultCf)]
+     ELSE [orsetup |-> TRUE, outcome |-> OutcomeFull(Fixed(sig), args, called, "none", DefaultCf)]]
 
 \* an "echo" function returns its first parameter: it needs one, of the result's kind
 WellFormedSig(sig) ==
@@ -233,4 +347,9 @@ WellFormedSig(sig) ==
                          /\ (sig.res = "echo" => (Len(sig.params) >= 1 /\ ~(sig.variadic /\ Len(sig.params) = 1)
                                                   /\ sig.params[1] = sig.rk))
                          /\ (sig.res = "none" => sig.err = "none")
+                         /\ (sig.res = "ext" => (sig.xv \in ExtOf(sig.rk) /\ sig.err \in {"none", "nil"}))
+  /\ sig.shape = "gen" => /\ \A j \in 1..Len(sig.params) : sig.params[j] \in ParamKinds
+                          /\ (sig.variadic => Len(sig.params) >= 1)
+                          /\ sig.nres \in 0..3 /\ sig.rk \in ParamKinds /\ sig.r2 \in SecondKinds
+                          /\ sig.res = (IF sig.nres = 0 THEN "none" ELSE "const") /\ sig.err = (IF sig.nres = 2 THEN "nil" ELSE "none")
 =============================================================================
